@@ -154,6 +154,7 @@ struct AllocState {
     long long count = 0;           // allocations since reset
     long long fail_at = 0;         // fail the k-th allocation from now (0 = never), one shot
     long long live = 0;            // live blocks (all)
+    size_t max_block = (size_t)64 << 20;   // larger requests fail with bad_alloc
     bool track = false;            // keep a registry of blocks (pool executors)
     bool inside = false;           // allocations made by the harness itself are not tracked
     static const int kMax = 8192;
